@@ -43,7 +43,35 @@ def py_slice(a, b, c, n):
     return list(range(n))[slice(a, b, c)]
 
 
-def build_file(rng, ctx):
+def f11_signature(pattern, sel):
+    """known finding F11 applies: a Logical Record after the first loaded one whose first selected frame is not its frame 0"""
+    seen = set()
+    for i_, g_ in enumerate(sel):
+        r_ = next(r for r in range(len(pattern)) if sum(pattern[:r]) <= g_ < sum(pattern[:r + 1]))
+        if r_ not in seen:
+            seen.add(r_)
+            if i_ > 0 and g_ - sum(pattern[:r_]) > 0:
+                return True
+    return False
+
+
+def f11_emulate(pattern, x0, dx, sel):
+    """exactly the defective X values of F11 (only to recognise the listed finding)"""
+    emu, seen = [], set()
+    for i, g in enumerate(sel):
+        r_ = next(r for r in range(len(pattern)) if sum(pattern[:r]) <= g < sum(pattern[:r + 1]))
+        f0 = g - sum(pattern[:r_])
+        rx0 = x0 + sum(pattern[:r_]) * dx
+        if r_ not in seen:
+            seen.add(r_)
+            emu.append(float(rx0 + f0 * dx) if (i == 0 or f0 == 0) else emu[i - 1] + f0 * dx)
+        else:
+            emu.append(emu[i - 1] + (g - sel[i - 1]) * dx)
+    return emu
+
+
+def build_lrs(rng, ctx, cons=None):
+    """the logical records of one LIS logical file (head, optional table, DFSR, data records, tail) + what they hold"""
     nch = rng.choice([1, 2, 3, 5])
     indirect = rng.random() < 0.5
     up = rng.random() < 0.5
@@ -68,7 +96,7 @@ def build_file(rng, ctx):
         x0 += 100000
     lrs = [GLL.file_head()]
     kinds = [('lr', 128)]
-    if rng.random() < 0.5:
+    if (rng.random() < 0.5) if cons is None else cons:
         lrs.append(bytes([34, 0]) + b'IA\x04\x00TYPE    CONS' + b'\x00A\x04\x00MNEM    BS  ')
         kinds.append(('lr', 34))
     lrs.append(GLL.dfsr(blocks, chans))
@@ -112,6 +140,14 @@ def build_file(rng, ctx):
             kinds.append(('lr', 232))
     lrs.append(GLL.file_tail())
     kinds.append(('lr', 129))
+    return dict(lrs=lrs, kinds=kinds, chans=chans, indirect=indirect, dx=dx, x0=x0, pattern=pattern, cells=cells, xs=xs, data_idx=data_idx,
+                ix=(4 if indirect else 0), xrc=xrc, up=up, nch=nch)
+
+
+def build_file(rng, ctx):
+    L = build_lrs(rng, ctx)
+    lrs, kinds, chans, indirect, dx, x0, pattern, cells, xs, data_idx, xrc, up, nch = (L[k] for k in (
+        'lrs', 'kinds', 'chans', 'indirect', 'dx', 'x0', 'pattern', 'cells', 'xs', 'data_idx', 'xrc', 'up', 'nch'))
     maxpay = rng.choice([16, 60, 200, 1020, 60000])
     tif = rng.choice(['none', 'le'])
     splits = [GL.random_split(rng, len(x), maxpay) for x in lrs]
@@ -207,15 +243,7 @@ def run(ctx):
             # known finding F11: with an implied X, a Logical Record after the first whose first selected frame is not its
             # frame 0 gets its X extrapolated from the previous loaded row.  Cases with that signature are judged on X by
             # the emulation below (exactly the defective values => KNOWN-FINDING, anything else => violation), not by TLC.
-            f11_sig = False
-            if F['indirect']:
-                seen = set()
-                for i_, g_ in enumerate(sel):
-                    r_ = next(r for r in range(len(F['pattern'])) if sum(F['pattern'][:r]) <= g_ < sum(F['pattern'][:r + 1]))
-                    if r_ not in seen:
-                        seen.add(r_)
-                        if i_ > 0 and g_ - sum(F['pattern'][:r_]) > 0:
-                            f11_sig = True
+            f11_sig = F['indirect'] and f11_signature(F['pattern'], sel)
             tr.append(dict(op='result', rows=len(xvals), x=[int(v) if v == int(v) else -12345678 for v in xvals], seeks=list(seeks),
                            judgex=not f11_sig))
             traces.append(tr)
@@ -241,16 +269,7 @@ def run(ctx):
                         break
                 if not bad and f11_sig:
                     # emulate the defect exactly
-                    emu, seen = [], set()
-                    for i, g in enumerate(sel):
-                        r_ = next(r for r in range(len(F['pattern'])) if sum(F['pattern'][:r]) <= g < sum(F['pattern'][:r + 1]))
-                        f0 = g - sum(F['pattern'][:r_])
-                        rx0 = F['x0'] + sum(F['pattern'][:r_]) * F['dx']
-                        if r_ not in seen:
-                            seen.add(r_)
-                            emu.append(float(rx0 + f0 * F['dx']) if (i == 0 or f0 == 0) else emu[i - 1] + f0 * F['dx'])
-                        else:
-                            emu.append(emu[i - 1] + (g - sel[i - 1]) * F['dx'])
+                    emu = f11_emulate(F['pattern'], F['x0'], F['dx'], sel)
                     if xvals == [float(F['xs'][g]) for g in sel]:
                         pass                                    # the defect is gone: fine
                     elif xvals == emu:
